@@ -404,19 +404,30 @@ class Decimal(Element):
         if self.scale is not None:
             self.scale = decimal.Decimal(f"0.{'0' * (self.scale - 1)}1")
 
+    def _normalize(self, value: decimal.Decimal) -> decimal.Decimal:
+        """OFX amounts are written in plain decimal notation (OFX section 3.2.8.1):
+        hold only finite numbers, at the declared scale, without a positive exponent.
+        """
+        if not value.is_finite():
+            raise OFXSpecError(f"'{value}' is not a finite number")
+        if self.scale is not None:
+            return value.quantize(self.scale)
+        if value.as_tuple().exponent > 0:
+            # Same number with exponent 0, e.g. 1E+2 -> 100
+            return value.quantize(decimal.Decimal(1))
+        return value
+
     @singledispatchmethod
     def convert(self, value):
         """Default dispatch convert() for unregistered type"""
         # None should be dispatched to _convert_none()
         assert value is not None
         # By default, attempt a naive conversion to subclass type
-        return self.__type__(value)
+        return self._normalize(self.__type__(value))
 
     @convert.register
     def _convert_decimal(self, value: decimal.Decimal):
-        if self.scale is not None:
-            value = value.quantize(self.scale)
-        return value
+        return self._normalize(value)
 
     @convert.register
     def _convert_str(self, value: str) -> decimal.Decimal:
@@ -426,10 +437,7 @@ class Decimal(Element):
         except decimal.InvalidOperation:
             dec = decimal.Decimal(value.replace(",", "."))
 
-        if self.scale is not None:
-            dec = dec.quantize(self.scale)
-
-        return dec
+        return self._normalize(dec)
 
     @convert.register
     def _convert_none(self, value: None):
@@ -443,9 +451,12 @@ class Decimal(Element):
 
     @unconvert.register
     def _unconvert_decimal(self, value: decimal.Decimal):
+        if not value.is_finite():
+            raise OFXSpecError(f"'{value}' is not a finite number")
         if self.scale is not None and not value.same_quantum(self.scale):
             raise ValueError(f"'{value}' doesn't match scale={self.scale}")
-        return str(value)
+        # Plain notation; str() would use an exponent for e.g. 1E+2 or 1E-7
+        return format(value, "f")
 
     @unconvert.register
     def _unconvert_none(self, value: None) -> None:
